@@ -247,8 +247,12 @@ class League:
     def teams_of(self, team_names):
         return [[self.players[n] for n in t] for t in team_names]
 
-    def reseed_out_of_domain(self, team_names, tau_zero):
-        """Executor-side, deterministic: a player that left D is clamped back before use."""
+    def reseed_out_of_domain(self, team_names, tau_zero, limit=False):
+        """Executor-side, deterministic: a player that left D is clamped back before use.
+        sigma == 0 is inside D only for a rate call with tau > 0 and limit_sigma not in force
+        (with the limit on, 'strictly positive' and '<= prior' cannot both hold for a prior
+        of 0: such a game is outside what C06 can state anything about)."""
+        tau_zero = tau_zero or limit
         out = []
         for t in team_names:
             for n in t:
